@@ -116,6 +116,41 @@ func reasmLargeCases() []RCase {
 		out = append(out, c)
 	}
 	{
+		// a bound in the thousands with that many incomplete events buffered at once (nothing may leave before the bound)
+		c := RCase{Max: 5000, TimeoutNs: int64(time.Hour), InWindow: true, Base: 20000}
+		for i := 0; i < 5003; i++ {
+			c.Ops = append(c.Ops, ROp{K: "push", ID: i + 1, Seq: 20000 + uint32(i), Typ: tSYSCALL})
+		}
+		c.Ops = append(c.Ops, ROp{K: "push", ID: 6000, Seq: 20000, Typ: tEOE}, ROp{K: "close"})
+		out = append(out, c)
+	}
+	{
+		// more than a thousand late arrivals in a row after one far-ahead delivery, then in-order ones again
+		c := RCase{Max: 1, TimeoutNs: int64(time.Hour), InWindow: true, Base: 1}
+		c.Ops = append(c.Ops, ROp{K: "push", ID: 1, Seq: 5000, Typ: 1112})
+		for i := 1; i <= 1100; i++ {
+			c.Ops = append(c.Ops, ROp{K: "push", ID: i + 1, Seq: uint32(i), Typ: 1112})
+		}
+		c.Ops = append(c.Ops, ROp{K: "push", ID: 2000, Seq: 1105, Typ: 1112}, ROp{K: "push", ID: 2001, Seq: 5001, Typ: 1112}, ROp{K: "push", ID: 2002, Seq: 5004, Typ: 1112}, ROp{K: "close"})
+		out = append(out, c)
+	}
+	{
+		// several thousand deliveries through one Reassembler, then the sequences delivered around every power of two
+		// come again (late duplicates): whatever bookkeeping is renewed every 2^k removals must forget nothing
+		c := RCase{Max: 0, TimeoutNs: int64(time.Hour), InWindow: true, Base: 1}
+		n := 8200
+		for i := 1; i <= n; i++ {
+			c.Ops = append(c.Ops, ROp{K: "push", ID: i, Seq: uint32(i), Typ: tSYSCALL})
+		}
+		id := n
+		for _, k := range []int{255, 256, 257, 1023, 1024, 1025, 4095, 4096, 4097, 8191, 8192, 8193} {
+			id++
+			c.Ops = append(c.Ops, ROp{K: "push", ID: id, Seq: uint32(k), Typ: tPATH})
+		}
+		c.Ops = append(c.Ops, ROp{K: "close"})
+		out = append(out, c)
+	}
+	{
 		// 1100 single-record events with gaps, through a small buffer (counters, loss accounting over a long run)
 		c := RCase{Max: 3, TimeoutNs: int64(time.Hour), InWindow: true, Base: 5000}
 		for i := 0; i < 1100; i++ {
@@ -123,6 +158,25 @@ func reasmLargeCases() []RCase {
 		}
 		c.Ops = append(c.Ops, ROp{K: "close"})
 		out = append(out, c)
+	}
+	return out
+}
+
+// reasmNamedTypeCases: every record type the library has a name for (and a few it has not), as a record of an
+// event that is completed by its EOE, as the record after a gap and as a late arrival: a type that is swallowed,
+// or that upsets the loss accounting, shows whichever type it is.
+func reasmNamedTypeCases() []RCase {
+	var out []RCase
+	types := append([]uint16{}, coOtherTypes...)
+	types = append(types, tSYSCALL, tPATH, tCWD, tEXECVE, tPROCTITLE, 1329, 1127, 1128, 2000, 1999, 999, 3000)
+	for _, t := range types {
+		out = append(out, RCase{Max: 4, TimeoutNs: int64(time.Hour), InWindow: true, Base: 100, Ops: []ROp{
+			{K: "push", ID: 1, Seq: 100, Typ: 1112},
+			{K: "push", ID: 2, Seq: 110, Typ: tSYSCALL}, {K: "push", ID: 3, Seq: 110, Typ: t}, {K: "push", ID: 4, Seq: 110, Typ: tPATH}, {K: "push", ID: 5, Seq: 110, Typ: tEOE},
+			{K: "push", ID: 6, Seq: 120, Typ: t}, {K: "push", ID: 7, Seq: 120, Typ: tEOE},
+			{K: "push", ID: 8, Seq: 105, Typ: t}, {K: "push", ID: 9, Seq: 105, Typ: tEOE},
+			{K: "raw", ID: 10, Seq: 130, Typ: t}, {K: "push", ID: 11, Seq: 131, Typ: 1112}, {K: "push", ID: 12, Seq: 140, Typ: 1112},
+			{K: "close"}}})
 	}
 	return out
 }
